@@ -59,8 +59,15 @@ static PTree *build_tree2 (_Bool with_knotif, _Bool with_vnotif)
 		if (g_present[i]) {
 			__CPROVER_assume (lo[i] < g_key[i] && g_key[i] < hi[i]);   /* search-tree order */
 			unsigned tag = nondet_uint (); __CPROVER_assume (tag < 16);
+#ifdef BALANCE_ONLY
+			__CPROVER_assume (tag == 0);
+#endif
 			g_kptr[i] = (ppointer) (unsigned long) (g_key[i] * 16 + (int) tag);
-			unsigned vv = nondet_uint (); __CPROVER_assume (vv < 64); g_val[i] = (ppointer) (unsigned long) (vv * 8);
+			unsigned vv = nondet_uint (); __CPROVER_assume (vv < 64);
+#ifdef BALANCE_ONLY
+			__CPROVER_assume (vv == 0);
+#endif
+			g_val[i] = (ppointer) (unsigned long) (vv * 8);
 			g_n[i] = malloc (sizeof (NODE)); __CPROVER_assume (g_n[i] != NULL);
 			count++;
 		} else g_n[i] = NULL;
@@ -152,23 +159,34 @@ static void check_tree (PTree *t, int probe)
 #define KEYARG(k, tagv) ((ppointer) (unsigned long) ((k) * 16 + (int) (tagv)))
 
 /* case split (only to run the cases in parallel; the union of the cases is everything):
- * 0: empty tree or the key equals the root key, 1/2: key below the root key and left child absent/present, 3/4: same above */
+ * 0: empty tree, the key equals the root key, or the key goes to the side of the root that has no child;
+ * 1: key below the root key and a left subtree exists, 2: key above the root key and a right subtree exists */
 #ifdef SPLIT
-#  define SPLIT_ASSUME(k) __CPROVER_assume (SPLIT == 0 ? (!g_present[0] || (k) == g_key[0]) : \
-	SPLIT == 1 ? (g_present[0] && (k) < g_key[0] && !PRES (1)) : SPLIT == 2 ? (g_present[0] && (k) < g_key[0] && PRES (1)) : \
-	SPLIT == 3 ? (g_present[0] && (k) > g_key[0] && !PRES (2)) : (g_present[0] && (k) > g_key[0] && PRES (2)))
+#  define SPLIT_ASSUME(k) __CPROVER_assume (SPLIT == 1 ? (g_present[0] && (k) < g_key[0] && PRES (1)) : SPLIT == 2 ? (g_present[0] && (k) > g_key[0] && PRES (2)) : \
+	(!g_present[0] || (k) == g_key[0] || ((k) < g_key[0] && !PRES (1)) || ((k) > g_key[0] && !PRES (2))))
 #else
 #  define SPLIT_ASSUME(k)
 #endif
 
+/* -DBALANCE_ONLY (C13 units at the larger height): no notifiers, one key object per key, one value, probe = the operated key;
+ * shape, keys, colours / balance factors, the operated key and allocation failure stay symbolic.  Only the structural
+ * obligations (search order, parent links, count, balance invariant) are then meaningful; the others are checked in the full units. */
+#ifdef BALANCE_ONLY
+#  define BO_ASSUME(kn, vn, tag, probe, k) __CPROVER_assume ((tag) == 0 && (probe) == (k))
+#  define NOTIF_CHOICE() 0
+#else
+#  define BO_ASSUME(kn, vn, tag, probe, k)
+#  define NOTIF_CHOICE() nondet_bool ()
+#endif
 /* ================================================================== insert */
 void h_insert (void)
 {
-	_Bool kn = nondet_bool (), vn = nondet_bool ();
+	_Bool kn = NOTIF_CHOICE (), vn = NOTIF_CHOICE ();
 	PTree *t = build_tree2 (kn, vn);
 	int k = nondet_int (), probe = nondet_int (); unsigned tag = nondet_uint ();
 	__CPROVER_assume (k > 0 && k < KMAX && tag < 16 && probe > 0 && probe < KMAX);
 	unsigned nv = nondet_uint (); __CPROVER_assume (nv < 64);
+	BO_ASSUME (kn, vn, tag, probe, k);
 	SPLIT_ASSUME (k);
 	ppointer key = KEYARG (k, tag), value = (ppointer) (unsigned long) (nv * 8 + 4);
 	ppointer oldv = NULL, oldk = NULL, pv = NULL; _Bool existed = pre_member (k, &oldv, &oldk), pm = pre_member (probe, &pv, NULL);
@@ -193,16 +211,19 @@ void h_insert (void)
 	if (existed && kn && g_nk == 1) OBL (g_klog[0] == oldk, "C14 insert: the replaced key is the one destroyed");
 	if (existed && vn && g_nv == 1) OBL (g_vlog[0] == oldv, "C14 insert: the replaced value is the one destroyed");
 	if (existed) CANARY ("replace"); else if (!g_alloc_failed) CANARY ("new key");
+#if !defined (SPLIT) || SPLIT != 0
 	if (g_cnt == NPOS + 1) CANARY ("full tree of height H grows");
+#endif
 }
 
 /* ================================================================== remove */
 void h_remove (void)
 {
-	_Bool kn = nondet_bool (), vn = nondet_bool ();   /* key and value notifiers are independent: none, one of them, or both */
+	_Bool kn = NOTIF_CHOICE (), vn = NOTIF_CHOICE ();   /* key and value notifiers are independent: none, one of them, or both */
 	PTree *t = build_tree2 (kn, vn);
 	int k = nondet_int (), probe = nondet_int (); unsigned tag = nondet_uint ();
 	__CPROVER_assume (k > 0 && k < KMAX && tag < 16 && probe > 0 && probe < KMAX);
+	BO_ASSUME (kn, vn, tag, probe, k);
 	SPLIT_ASSUME (k);
 	ppointer oldv = NULL, oldk = NULL, pv = NULL; _Bool existed = pre_member (k, &oldv, &oldk), pm = pre_member (probe, &pv, NULL);
 	unsigned n0 = pre_count ();
